@@ -1,4 +1,5 @@
-(* Driver for the extracted C09 model (M) and specification (S).  Reads the history language of
+(* Driver for the extracted C09 model (M) and specification (S).  The call trace is printed for plain
+   (not compressed, not chunked) images only: below a special element the lower layers issue calls of their own.  Reads the history language of
    harness/drive_gr.c; prints one line per operation:   <op> M <result>[ |<trace>] ; S <result>
    All computations on images are the extracted Coq functions; this file only parses, keeps the
    slot table and prints. *)
@@ -75,7 +76,7 @@ let () =
               let r = mk_rgn sx sy tx ty cx cy in
               let b = List.map z_of_int bytes in
               let mstr = (match m_writeimage m r b with
-                  | Some (m', tr) -> ms.(k) <- Some m'; "ok |" ^ trace_str tr
+                  | Some (m', tr) -> ms.(k) <- Some m'; "ok |" ^ (if m.m_store = StPlain then trace_str tr else " -")
                   | None -> "fail |") in
               let sstr =
                 if sdead.(k) then "nodomain"
@@ -98,7 +99,7 @@ let () =
             | Some (m, s) when sx >= 0 && sy >= 0 && cx > 0 && cy > 0 ->
               let r = mk_rgn sx sy tx ty cx cy in
               let mstr = (match m_readimage m r with
-                  | Some (b, tr) -> "ok" ^ bytes_str b ^ " |" ^ trace_str tr
+                  | Some (b, tr) -> "ok" ^ bytes_str b ^ " |" ^ (if m.m_store = StPlain then trace_str tr else " -")
                   | None -> "fail |") in
               let sstr =
                 if sdead.(k) then "nodomain"
